@@ -127,6 +127,8 @@ def tie(tier, seed):
     items = items_for(tier, seed)
     out, errors = par.run(items, export_item)
     agree = total = skipped = 0
+    pre_met = 0
+    pre_unmet = []
     mism = []
     kinds = {}
     for item, meta, res in out:
@@ -141,9 +143,17 @@ def tie(tier, seed):
         rs = res if (res and isinstance(res[0], list)) else [res]
         for x in rs:
             total += 1
+            if len(x) == 4:
+                # fourth column: the precondition of the totality theorem (Model/Total2.v) holds for this call
+                if x[3] == 1:
+                    pre_met += 1
+                elif len(pre_unmet) < 4:
+                    pre_unmet.append({"graph": item[1]})
+                x = x[:3]
             if x == [1, 1, 1]:
                 agree += 1
             elif len(mism) < 4:
                 mism.append({"graph": item[1], "columns": x})
-    return {"calls_compared": total, "agree": agree, "mismatch_count": total - agree, "mismatches": mism,
+    return {"calls_compared": total, "agree": agree, "totality_precondition_met": pre_met,
+            "totality_precondition_unmet_examples": pre_unmet, "mismatch_count": total - agree, "mismatches": mism,
             "calls_by_kind": kinds, "skipped": skipped, "harness_errors": [repr(e)[:200] for e in errors][:3]}
